@@ -43,6 +43,12 @@ CHECKS.update({
    text="Every mutator and accessor of the vector and the fixed buffer (except the qsort/bsearch pass-throughs) from constructed states (element sizes 1,3 quick / 1,2,3,8 thorough; capacity <= 3 / 4; spare-slot and exactly-full states; symbolic payload), one operation (thorough: also pairs) with symbolic arguments where every out-of-range index/count is a single symbolic 64-bit value (so SIZE_MAX and wrapping sums are models the solver must find); every memory access checked against owned objects.",
    note=E2NOTE + " Allocation never fails in this check (C07 covers failure)."),
 })
+CHECKS.update({
+ "C05": dict(engine="llsym", cat="model_checking", design="4/C05",
+   technique="symbolic execution of the inline list.h/slist.h operations (wrapper TU) and src/que.c IR (llsym + z3) against abstract sequences; queue states reached through the API, indices symbolic",
+   text="Every list/slist mutator on rings of up to 4 (5) nodes with every operand position or section (disjoint, non-adjacent for swap/set/mov), and every queue operation after every valid push/pull history of length <= 3 (4) with symbolic indices (any 64-bit value beyond the end; signed for at()), symbolic payload tags; ring integrity, fixed element addresses, pool/ring disjointness checked after every call.",
+   note=E2NOTE),
+})
 NOT_YET = {}
 
 def main():
